@@ -259,9 +259,14 @@ func H_C17_desc(v *V) {
 	d := &c17D{}
 	p := NewNamedParser("prog", None)
 	p.AddGroup("Application Options", "", d)
-	which := v.Choice(3)
+	which := v.Choice(4)
 	want := ""
 	switch which {
+	case 3:
+		// a short description with an embedded line break: the second line
+		// is indented to the description column
+		p.FindOptionByLongName("qq").Description = "x" + D + "\nyy" + D
+		want = "x" + D + "\n"
 	case 0:
 		p.FindOptionByLongName("opt").Description = "x" + D
 		want = "x" + D + " (default: dv) [$EK]"
@@ -280,6 +285,10 @@ func H_C17_desc(v *V) {
 	v.Reach("rendered")
 	v.ObserveStr("help", out)
 	v.Assert(v.Contains(out, want), "the description is printed uncorrupted (with its default and environment variable beside it)")
+	if which == 3 {
+		c1, c2 := c17Column(out, "x"+D+"\n"), c17Column(out, "yy"+D)
+		v.Assert(c1 >= 0 && c2 == c1, "the line after an embedded line break is indented to the description column")
+	}
 }
 
 type c17Clone struct {
